@@ -8,6 +8,7 @@ FQS = ["f2_algebra.rref", "f2_algebra.rref_and_basis_change", "f2_algebra.rank",
 
 def run(tree, rep, tier):
     flow = Flow(tree)
+    flow.describe(rep)
     E1_typed_empties(rep, flow, ["f2_algebra.null_space"], rule_floor=1)
     E1_kernel_shape(rep, flow)
     A4_params(rep, flow, only=FQS)
